@@ -167,3 +167,77 @@ def join_wakeup(F):
         idx = bound[0]["args"][1] if bound and len(bound[0].get("args") or []) >= 2 else None
         return jn, body[0], idx, cb[0]
     raise AnalysisBroken("thread::join: the exit callback is neither a lambda nor a bound function")
+
+
+def stack_size_cache_rule(rep, rid):
+    """The runtime configuration keeps the four configured stack sizes in members (small/medium/large/huge_stacksize) that
+    thread_manager, the queues and the stack allocator read through get_stack_size().  They are a cache of configuration
+    entries, so they have to be re-read after every merge of configuration sources (post_initialize_ini: ini files,
+    --pika:ini, init_params::cfg), by the constructor and by reconfigure() alike, each from the reader of its own class,
+    and get_stack_size() has to hand out the member of the class it is asked for."""
+    from engine.core import T, P, callee_short, loc_of, strip
+    from engine.kinds import always_followed_by
+    F = facts(rep, lib("runtime_configuration", "src/runtime_configuration.cpp"),
+              [r"^pika::util::runtime_configuration::(runtime_configuration|reconfigure|get_stack_size)$"])
+    gs = [f for f in F.find(r"runtime_configuration::get_stack_size$") if f.parent == -1]
+    if len(gs) != 1:
+        raise AnalysisBroken("runtime_configuration::get_stack_size: %d definitions" % len(gs))
+    gs = gs[0]
+    sw = [blk for blk in gs.blocks.values() if any(l == "case" for l, _, _ in blk.succ)]
+    if len(sw) != 1:
+        raise AnalysisBroken("get_stack_size: switch over the stack-size class not found")
+
+    def returned_from(b):
+        seen = set()
+        while b not in seen:
+            seen.add(b)
+            blk = gs.blocks[b]
+            for e in blk.events:
+                if e.get("k") == "return":
+                    return T(strip(e.get("e")))
+            if len(blk.succ) != 1:
+                return None
+            b = blk.succ[0][1]
+        return None
+    members = set()
+    n = 0
+    for l, t, raw in sw[0].succ:
+        r = returned_from(t)
+        if r and re.match(r"^this->\w+$", r):
+            members.add(r[6:])
+        if l != "case":
+            continue
+        cls = T(raw.get("case")).rsplit("::", 1)[-1].rstrip("_")
+        if r is None or not r.startswith("this->"):
+            continue            # nostack: no configured size
+        n += 1
+        if r[6:].startswith(cls):
+            rep.ok(rid, gs, "get_stack_size(%s) hands out %s" % (cls, r[6:]))
+        else:
+            rep.bad(rid, gs, gs.loc, "stack-size-class:" + cls, "get_stack_size(thread_stacksize::%s) returns %s: tasks of that class run on stacks of another class's configured size" % (cls, r[6:]))
+    if len(members) < 4 or n < 4:
+        raise AnalysisBroken("get_stack_size: only %d cached stack-size members recognised (%s)" % (len(members), sorted(members)))
+    users = [f for f in F.fns if f.parent == -1 and f is not gs and any(e.get("k") == "call" and callee_short(e) in ("pre_initialize_ini", "post_initialize_ini") for _, _, e in f.all_events())
+             and not f.qname.endswith("_initialize_ini")]
+    if len(users) < 2:
+        raise AnalysisBroken("runtime_configuration: expected the constructor and reconfigure() to merge the configuration sources (found %d functions)" % len(users))
+    for f in users:
+        merges = [(b, i, e) for b, i, e in f.all_events() if e.get("k") == "call" and callee_short(e) in ("pre_initialize_ini", "post_initialize_ini")]
+        for m in sorted(members):
+            cls = m.split("_", 1)[0]
+
+            def refresh(e, m=m, cls=cls):
+                if not (e.get("k") == "write" and e.get("op") == "=" and P(e["lhs"]) == "this->" + m):
+                    return False
+                rhs = strip(e.get("rhs"))
+                return isinstance(rhs, dict) and rhs.get("k") == "call" and re.match(r"^init_%s_stack_size$" % cls, callee_short(rhs) or "") is not None
+            bad = [p for b, i, e in merges for p in always_followed_by(f, (b, i), refresh)]
+            if bad:
+                anyw = [e for _, _, e in f.all_events() if e.get("k") == "write" and P(e["lhs"]) == "this->" + m]
+                rep.bad(rid, f, loc_of(merges[-1][2]), "stack-size-stale:%s:%s" % (f.qname.rsplit("::", 1)[-1], m), "%s (re)builds the configuration (pre_/post_initialize_ini: defaults and environment, ini files, --pika:ini, "
+                        "init_params::cfg) and then %s: get_stack_size() keeps handing out the size read before the merge - the compile-time default or the environment's - so tasks of "
+                        "that class run on stacks of another size than the configured one (a task relying on the configured size overflows its stack)" % (
+                            f.qname, ("assigns %s from %s, not from its own reader init_%s_stack_size()" % (m, T(anyw[-1].get("rhs")), cls)) if anyw else
+                            "does not re-read %s with init_%s_stack_size()" % (m, cls)))
+            else:
+                rep.ok(rid, f, "%s re-reads %s with init_%s_stack_size() after merging the configuration sources" % (f.qname.rsplit("::", 1)[-1], m, cls))
